@@ -1,5 +1,6 @@
 //! Bounded stand-in / failing-input search for unit U12 (matcher slot correspondence) — NOT a proof.
 //! host: src/rewrite/ematch.rs
+//! functions: try_insert_compatible_slotmap_bij
 //! Bound: every injective map with at most 3 entries over keys/values $0..$3 and every pair (k, v) over $0..$4.
 use crate::*;
 use super::*;
